@@ -430,3 +430,14 @@ func ReplayFile[C any](t *testing.T, id string, check func(sub string, c C) erro
 	}
 	fmt.Printf("REPLAY-OK property=%s replay=%s\n", id, p)
 }
+
+// ReplaySub returns the sub-check name stored in the VERIF_REPLAY file ("" if unset/unreadable).
+func ReplaySub() string {
+	b, err := os.ReadFile(os.Getenv("VERIF_REPLAY"))
+	if err != nil {
+		return ""
+	}
+	var r Replay
+	json.Unmarshal(b, &r)
+	return r.Sub
+}
